@@ -1710,6 +1710,9 @@ BOUNDS = {
                           "for rdwr and card", K=4, it=4, rd=3, fb=45,
                           its="absent/-1/0/1/2/3", s3=""),
 }
+_LATER = ("; added later: on-startup results that are lists with foreign members; "
+          "connect(llcp) with a Type 1 / Type 2 / Type 4A tag staying in the field")
+BOUNDS = dict((k, v + _LATER) for k, v in BOUNDS.items())
 OUTSIDE = [
     "tags other than a generic (non-NXP) Type 2 Tag: Type 1/3/4 and NXP activation sequences belong to C08; tag I/O inside callbacks beyond one presence check",
     "LLCP traffic other than SYMM/DISC, DID/NAD, 106A framing and active communication mode of the peer, bit rates other than the default PSL, LLCP data protection (OpenSSL not loadable here)",
